@@ -13,13 +13,18 @@
     `judgeC18_accepts_model_sticky_repl` is the same through `protoRepl` on a control block with a
     sticky id (gate open).
 
-  No judge-vs-model discrepancy for C18.  The case that needed an argument: the judge's last branch
-  (payload neither "Gh0st…" nor an answered identification string) fails on ANY reply that starts with
-  "SSH-", whoever produced it; the ONC-RPC/UDP responder echoes the first four payload bytes (the xid) in
-  front of its reply, so a portmapper call with xid "SSH-" would be a false alarm — it cannot happen
-  because the compiled matcher does not identify an ONC-RPC call whose first byte is 'S' (known finding
-  K2, `J3.k2_rpc_udp_head`): here the shadow set protects the judge.  `judgeC18_relies_on_K2` makes the
-  dependence explicit: if K2 were fixed in the program, the judge would raise a false alarm on that call.
+  * The judge recognises an SSH banner in a reply as a COMPLETE identification string (`Spec.sshIdent r`), not by
+    its first four bytes.  Consequently its last branch does not depend on the shadow set K2 any more:
+    `judgeC18_accepts_any_non_banner` (payload neither "Gh0st…" nor an answered identification string: every
+    reply that is not an identification string, and silence, is accepted), `J3.handle_not_banner` (no handler
+    but the SSH one produces an identification string — proved from the reply shapes alone, no fact about the
+    matcher), `judgeC18_rpc_ssh_xid_ok` (the ONC-RPC/UDP responder's own reply to a portmapper call with xid
+    "SSH-", which starts with "SSH-", is accepted: the byte after the xid is 0x00, not a version byte).  The
+    judge keeps its teeth: `ssh_reply_is_banner` (the SSH responder's only reply is `sshBannerExpected`, which
+    satisfies `sshIdent`) and `judgeC18_catches_banner` (the banner sent for anything that is not an answered
+    identification string is rejected, fresh flow and sticky SSH flow).
+
+  No judge-vs-model discrepancy for C18.
 -/
 import Masscanned.Proofs.J3.Judge
 open Masscanned
@@ -58,24 +63,14 @@ theorem judgeC18_accepts_model (cfg : Cfg) (env : Env) (ci : ClientInfo) (p : By
       | none => rfl
       | some r =>
         simp only
-        have hc : classify r ≠ .ssh := by
-          rcases reply_cases ht h with ⟨_, s, hh⟩ | ⟨hid, hh⟩ | hn
-          · obtain ⟨s', o, hl, hcase⟩ := C13.http_language env p
-            rw [hl] at hh
-            simp only [Except.ok.injEq, Prod.mk.injEq] at hh
-            rcases hcase with ⟨_, ho⟩ | ⟨_, ho⟩
-            · rw [ho] at hh
-              simp only [Option.some.injEq] at hh
-              obtain ⟨rest, hr⟩ := C12.http_shape ⟨env, hh.2.symm⟩
-              rw [hr]
-              exact http_head_not_ssh rest
-            · rw [ho] at hh; cases hh.2
+        have hc : sshIdent r = false := by
+          rcases reply_banner_cases ht h with ⟨hid, hh⟩ | hn
           · exfalso
             apply hs
             rw [C18.spec_answered_iff]
             exact ⟨k2_ssh_inv p hid, ((C18.ssh_answered_iff p r).1 hh).2⟩
-          · exact (notSH_classify hn).1
-        rw [if_neg hc]
+          · exact hn
+        simp only [hc, Bool.false_eq_true, if_false]
         rfl
 
 /-- **sticky case**: later segment of a flow already identified as protocol `id` (any `id`), judged on
@@ -126,43 +121,112 @@ theorem judgeC18_gate_needed (cfg : Cfg) (env : Env) :
     (judgeC18 (obsOf ciNoCookie C18.ghE ciNoCookie none)).ok = false :=
   ⟨by decide, model_gate cfg env _ _ _ (by decide), by decide +kernel⟩
 
-/-! ### the judge's last branch is sound only because of the shadow set K2 -/
+/-! ### the judge does not depend on the shadow set K2 -/
+
+/-- payload neither "Gh0st…" nor an answered identification string, fresh flow: silence and every reply that is
+    not a complete SSH identification string are accepted — whoever produced it, whatever it starts with -/
+theorem judgeC18_accepts_any_non_banner (ci : ClientInfo) (p : Bytes) (ci' : ClientInfo) (reply : Option Bytes)
+    (hgh : "Gh0st".toUTF8.toList.isPrefixOf p = false) (hs : sshAnswered p = false)
+    (hr : ∀ r, reply = some r → sshIdent r = false) :
+    (judgeC18 (obsOf ci p ci' reply)).ok = true := by
+  rw [judgeC18_obs]
+  simp only [reduceCtorEq, if_false, Option.isSome_none, Bool.false_eq_true, hgh, hs]
+  cases reply with
+  | none => rfl
+  | some r =>
+    simp only [hr r rfl, Bool.false_eq_true, if_false]
+    rfl
+
+/-- the same on a sticky SSH flow, for a segment that is not an identification string -/
+theorem judgeC18_accepts_any_non_banner_sticky (ci : ClientInfo) (p : Bytes) (ci' : ClientInfo)
+    (reply : Option Bytes) (hs : sshAnswered p = false) (hr : ∀ r, reply = some r → sshIdent r = false) :
+    (judgeC18 (obsOf ci p ci' reply (some ID_SSH))).ok = true := by
+  rw [judgeC18_obs]
+  simp only [if_true, hs, Bool.false_eq_true, if_false]
+  cases hi : sshIdent p with
+  | true => rfl
+  | false =>
+    cases reply with
+    | none => rfl
+    | some r =>
+      simp only [Bool.not_false, if_true, hr r rfl, Bool.false_eq_true, if_false]
+      rfl
+
+/-- the SSH responder's only reply is `sshBannerExpected`, and it is a complete identification string -/
+theorem ssh_reply_is_banner (d r : Bytes) (h : sshRepl d = .ok (some r)) :
+    r = sshBannerExpected ∧ sshIdent r = true := by
+  have := C18.ssh_reply_exact d r h
+  exact ⟨this, by rw [this]; exact sshIdent_banner⟩
+
+/-- so the judge still catches a banner sent for a payload that is not an answered identification string:
+    on a fresh flow (payload not "Gh0st…") and on a sticky SSH flow (segment not an identification string) -/
+theorem judgeC18_catches_banner (ci : ClientInfo) (p : Bytes) (ci' : ClientInfo)
+    (hs : sshAnswered p = false) :
+    ("Gh0st".toUTF8.toList.isPrefixOf p = false →
+      (judgeC18 (obsOf ci p ci' (some sshBannerExpected))).ok = false) ∧
+    (sshIdent p = false → (judgeC18 (obsOf ci p ci' (some sshBannerExpected) (some ID_SSH))).ok = false) := by
+  constructor
+  · intro hgh
+    rw [judgeC18_obs]
+    simp only [reduceCtorEq, if_false, Option.isSome_none, Bool.false_eq_true, hgh, hs, sshIdent_banner, if_true]
+    rfl
+  · intro hi
+    rw [judgeC18_obs]
+    simp only [if_true, hs, Bool.false_eq_true, if_false, hi, Bool.not_false, sshIdent_banner]
+    rfl
 
 /-- a portmapper GETPORT call whose xid is the four bytes "SSH-" -/
 def xidSsh : Bytes := C16.mkCall 0x5353482d 100000 2 3
 
-/-- LATENT (would surface if finding K2 were fixed in the program): `xidSsh` completes the PUBLISHED
-    ONC-RPC/UDP signature, but lies in the shadow set (first byte 'S'), so the compiled matcher identifies
-    nothing and the model is silent — verdict ok.  The ONC-RPC/UDP responder itself would answer with a reply
-    that starts with the echoed xid "SSH-", which `Spec.classify` takes for an SSH banner: on that
-    observation `judgeC18` FAILS ("SSH banner sent for a malformed / unterminated identification string"),
-    although the behaviour would be exactly what C10 + C16 prescribe. -/
-theorem judgeC18_relies_on_K2 (cfg : Cfg) (env : Env) :
+/-- `xidSsh` completes the PUBLISHED ONC-RPC/UDP signature but lies in the shadow set (first byte 'S'): the
+    model is silent (accepted).  If the program followed the published signatures (finding K2 fixed) the
+    ONC-RPC/UDP responder would answer with a reply that starts with the echoed xid "SSH-" (`Spec.classify`
+    calls it `.ssh`); it is not an identification string, and the judge accepts that observation too: the
+    verdict on this call is the same with and without K2. -/
+theorem judgeC18_rpc_ssh_xid_ok (cfg : Cfg) (env : Env) :
     refDatagram xidSsh = some ID_RPC_UDP ∧ shadowed xidSsh = true ∧ refDatagramK2 xidSsh = none ∧
     protoRepl cfg env C10E2E.ciUdp none xidSsh = .ok (C10E2E.ciUdp, none, none) ∧
     (judgeC18 (obsOf C10E2E.ciUdp xidSsh C10E2E.ciUdp none)).ok = true ∧
-    (∃ r, protoHandle C18.cfgE env ID_RPC_UDP C10E2E.ciUdp none xidSsh = .ok (C10E2E.ciUdp, none, some r) ∧
-      classify r = .ssh ∧ (judgeC18 (obsOf C10E2E.ciUdp xidSsh C10E2E.ciUdp (some r))).ok = false) := by
+    (∃ r, protoHandle cfg env ID_RPC_UDP C10E2E.ciUdp none xidSsh = .ok (C10E2E.ciUdp, none, some r) ∧
+      sshMagic.isPrefixOf r = true ∧ classify r = .ssh ∧ sshIdent r = false ∧
+      (judgeC18 (obsOf C10E2E.ciUdp xidSsh C10E2E.ciUdp (some r))).ok = true) := by
   have hid : refDatagramK2 xidSsh = none := by decide +kernel
-  refine ⟨by decide +kernel, by decide +kernel, hid, ?_, by decide +kernel, ?_⟩
+  have hgh : "Gh0st".toUTF8.toList.isPrefixOf xidSsh = false := by decide +kernel
+  have hs : sshAnswered xidSsh = false := by decide +kernel
+  refine ⟨by decide +kernel, by decide +kernel, hid, ?_,
+    judgeC18_accepts_any_non_banner _ _ _ _ hgh hs (by intro r h; cases h), ?_⟩
   · rw [model_none cfg env _ _ (by decide), hid]
     have : dnsParse xidSsh = none := by decide +kernel
     simp only [this, Option.bind_none]
-  · obtain ⟨r, hr⟩ := Option.isSome_iff_exists.mp (show
-      (match rpcReplUdp false C10E2E.ciUdp xidSsh with | .ok (some r) => some r | _ => none).isSome = true by
-        decide +kernel)
-    have hq : rpcReplUdp false C10E2E.ciUdp xidSsh = .ok (some r) := by
-      split at hr
-      · rename_i r' heq; cases hr; exact heq
-      · cases hr
-    refine ⟨r, ?_, ?_⟩
-    · rw [handle_rpc_udp, show C18.cfgE.ovf = false from rfl, hq]
-    · have hv : (match rpcReplUdp false C10E2E.ciUdp xidSsh with
-          | .ok (some r) => decide (classify r = .ssh) &&
-              !(judgeC18 (obsOf C10E2E.ciUdp xidSsh C10E2E.ciUdp (some r))).ok
-          | _ => false) = true := by decide +kernel
-      rw [hq] at hv
-      simpa using hv
+  · obtain ⟨c, hc⟩ := Option.isSome_iff_exists.mp (show (parseCall xidSsh).isSome = true by decide +kernel)
+    obtain ⟨r, hq, _⟩ := C16.rpc_reply_udp cfg.ovf C10E2E.ciUdp xidSsh c _ 111 hc rfl rfl (by decide)
+    have hh : protoHandle cfg env ID_RPC_UDP C10E2E.ciUdp none xidSsh = .ok (C10E2E.ciUdp, none, some r) := by
+      rw [handle_rpc_udp, hq]
+    have hni := handle_not_banner (by decide) hh
+    have hx : ∃ x0 x1 x2 x3 x t, r = [x0, x1, x2, x3, 0, 0, 0, 1, 0, 0, 0, 0, 0, 0, 0, 0, 0, 0, 0, 0, 0, 0, 0, x] ++ t :=
+      C12.rpc_udp_shape ⟨_, _, _, hq⟩
+    have hmag : sshMagic.isPrefixOf r = true := by
+      have h32 : u32be 0x5353482d = [83, 83, 72, 45] := by decide
+      unfold rpcReplUdp at hq
+      obtain ⟨s, hparse, hdone, hxid, _⟩ := C16.rpc_parse_header cfg.ovf xidSsh.length xidSsh (by decide +kernel)
+      rw [hparse] at hq
+      simp only [hdone, if_true] at hq
+      cases hb : rpcBuild s C10E2E.ciUdp with
+      | error e => rw [hb] at hq; cases hq
+      | ok resp =>
+        rw [hb] at hq
+        simp only [Except.ok.injEq, Option.some.injEq] at hq
+        subst hq
+        obtain ⟨x, t, e⟩ := C12.rpcBuild_shape hb
+        have hx32 : s.xid = 0x5353482d := by rw [hxid]; decide +kernel
+        rw [e, hx32, h32]
+        simp [sshMagic, List.isPrefixOf]
+    refine ⟨r, hh, hmag, ?_, hni, judgeC18_accepts_any_non_banner _ _ _ _ hgh hs (by intro r' h; cases h; exact hni)⟩
+    unfold classify
+    rw [ssh4_eq, http7_eq, if_neg, if_pos hmag]
+    obtain ⟨x0, x1, x2, x3, x, t, e⟩ := hx
+    rw [e]
+    simp [http7, List.isPrefixOf]
 
 /-! ### non-vacuity: concrete requests, non-trivial verdicts -/
 
@@ -210,4 +274,8 @@ end Masscanned.C18Judge
 #print axioms Masscanned.C18Judge.judgeC18_accepts_model_sticky
 #print axioms Masscanned.C18Judge.judgeC18_accepts_model_sticky_repl
 #print axioms Masscanned.C18Judge.judgeC18_gate_needed
-#print axioms Masscanned.C18Judge.judgeC18_relies_on_K2
+#print axioms Masscanned.C18Judge.judgeC18_accepts_any_non_banner
+#print axioms Masscanned.C18Judge.judgeC18_accepts_any_non_banner_sticky
+#print axioms Masscanned.C18Judge.ssh_reply_is_banner
+#print axioms Masscanned.C18Judge.judgeC18_catches_banner
+#print axioms Masscanned.C18Judge.judgeC18_rpc_ssh_xid_ok
